@@ -296,4 +296,26 @@ CHECKS = {
             {"name": "trees", "test": "TestTrees", "quick": None, "thorough": None, "shards": 1, "enum": True},
         ],
     },
+    "C12": {
+        "pkg": "c12",
+        "level": "exploration",
+        "level_text": ("Three generated families against causal device models that record, for every Write, how many device bytes Read had "
+                       "already returned: (1) interactive event lists (1-5 events, visible/hidden, with/without expected response, device "
+                       "answering after generated virtual delays and segmentations, optional early completion) - every event input must be "
+                       "typed only after the previous expected response (or prompt) was delivered, a visible input's return only after its "
+                       "echo, nothing typed after an early completion, result contains the whole dialogue; (2) plain commands with a late "
+                       "echo - the return is written only after the echo was delivered unless eager; (3) authenticated escalation with a "
+                       "device that asks / grants without asking / refuses without asking / asks then rejects - the secret reaches the "
+                       "device only in its password state, only after the password prompt bytes were delivered, never at a command prompt."),
+        "level_note": "Trusted: the device models and the delivered-bytes recorder in sim.Pipe, the virtual clock.",
+        "technique": "property-based testing (rapid) with a delivered-before-written recorder invariant over paced device scripts, virtual time",
+        "rule": ("interactive: events x delays x early completion x cut plan; command: late echo x eager; escalation: device behaviour x secret x delays. "
+                 "Non-trivial: >=2 events, a hidden event or early completion; a late echo; a non-asking or rejecting device. Distinct = sha1(case)."),
+        "assumptions": ["the connect-time prompt is consumed by a warm-up command before the interactive send (an event expecting 'the prompt' must not be satisfied by a prompt shown before anything was typed)"],
+        "subs": [
+            {"name": "interactive", "test": "TestInteractive", "quick": 1000, "thorough": 12000, "shards": 16},
+            {"name": "command", "test": "TestCommand", "quick": 800, "thorough": 8000, "shards": 8},
+            {"name": "escalation", "test": "TestEscalation", "quick": 600, "thorough": 6000, "shards": 8},
+        ],
+    },
 }
